@@ -36,6 +36,14 @@ class WApp:
             import zlib
             self.falsy_delegate = zlib.crc32(("%s:%s" % (getattr(world, "seed", 0), name)).encode()) % 4 == 0
             kw["delegate"] = self
+        self.statuses = 0
+        self.status_hook = None      # optional: called with each status object (an application that acts on status changes)
+
+        def on_status(st):
+            self.statuses += 1
+            if self.status_hook is not None:
+                self.status_hook(st)
+        kw["on_status_update"] = on_status
         self.w = wmod.create(appid, url, world.reactor, **kw)
         self.binputs = []         # Boss inputs in processing order: (step, old_state, input)
         self.inbound = []         # server messages in the order the client processed them
